@@ -405,6 +405,18 @@ def mk_cmp(op, a, b):
                 return C(bool(r))
         except Exception:
             pass
+    # (k1 if c else k2) == k  with constants: decided by c
+    if op in ("==", "!="):
+        for x, y in ((a, b), (b, a)):
+            if x[0] == "ite" and is_const(x[2]) and is_const(x[3]) and is_const(y):
+                e1, e2 = x[2] == y, x[3] == y
+                if e1 and e2:
+                    r = TRUE
+                elif not e1 and not e2:
+                    r = FALSE
+                else:
+                    r = x[1] if e1 else mk_not(x[1])
+                return r if op == "==" else mk_not(r)
     # orientation normalisation: a > b  ==  b < a
     if op == ">":
         op, a, b = "<", b, a
@@ -545,7 +557,14 @@ def is_seq_term(t) -> bool:
 
 def proj_sub(obj, idx):
     if is_const(idx) and isinstance(idx[1], int) and not isinstance(idx[1], bool):
+        # xs[a:][k] is xs[a + k] for non-negative a, k
+        if idx[1] >= 0 and obj[0] == "sub" and obj[2][0] == "slice" and is_const(obj[2][1]) and isinstance(obj[2][1][1], int) \
+                and obj[2][1][1] >= 0 and obj[2][2] == NONE and obj[2][3] in (NONE, C(1)):
+            return proj(obj[1], obj[2][1][1] + idx[1])
         return proj(obj, idx[1])
+    if idx[0] == "slice" and obj[0] == "map":
+        # a slice of a mapped sequence is the map of the sliced sequence
+        return ("map", obj[1], proj_sub(obj[2], idx))
     if obj[0] in ("tuple", "list") and idx[0] == "slice" and all(
             is_const(x) for x in idx[1:]) and not any(x[0] == "star" for x in obj[1]):
         s = slice(idx[1][1], idx[2][1], idx[3][1])
@@ -631,11 +650,18 @@ _sig("jax.scipy.linalg.solve_triangular", "a b trans lower", trans=0, lower=Fals
 _sig("jax.lax.stop_gradient", "x")
 _sig("jax.lax.while_loop", "cond_fun body_fun init_val")
 _sig("jax.random.split", "key num", num=2)
+for _q in ("norm", "uniform", "cauchy", "laplace", "logistic", "gumbel_r", "expon"):
+    _sig(f"jax.scipy.stats.{_q}.logpdf", "x loc scale", loc=0, scale=1)
+_sig("jax.scipy.stats.t.logpdf", "x df loc scale", loc=0, scale=1)
+_sig("jax.numpy.delete", "arr obj axis", axis=None)
+_sig("equinox.nn.MLP", "in_size out_size width_size depth activation final_activation use_bias use_final_bias",
+     use_bias=True, use_final_bias=True)
 _sig("jax.random.permutation", "key x axis independent", axis=0, independent=False)
 _sig("jax.random.choice", "key a shape replace p axis", shape=(), replace=True, p=None, axis=0)
 _sig("jax.random.categorical", "key logits axis shape", axis=-1, shape=None)
-for _q in "normal uniform gumbel cauchy laplace exponential logistic".split():
+for _q in "normal gumbel cauchy laplace exponential logistic".split():
     _sig(f"jax.random.{_q}", "key shape dtype", dtype=None)
+_sig("jax.random.uniform", "key shape dtype minval maxval", dtype=None, minval=0.0, maxval=1.0)
 _sig("jax.random.t", "key df shape dtype", dtype=None)
 _sig("equinox.partition", "pytree filter_spec replace is_leaf", replace=None, is_leaf=None)
 _sig("equinox.combine", "*pytrees")
@@ -758,6 +784,16 @@ def norm_call(f, args, kwargs, prog: Program | None = None):
                 kwargs = dict(kwargs, shape=sh[2][0])
         if q == "jax.numpy.broadcast_shapes" and args and not kwargs:
             args = tuple(sorted(args, key=key))  # commutative
+        if q == "jax.nn.leaky_relu" and not args and "x" in kwargs:
+            # documented definition: where(x >= 0, x, negative_slope * x)
+            a_ = kwargs.get("negative_slope", C(0.01))
+            x_ = kwargs["x"]
+            return norm_call(("ext", "jax.numpy.where"), (), {"condition": mk_cmp(">=", x_, C(0)), "x": x_,
+                                                               "y": mk_mul((a_, x_))}, prog)
+        if q == "equinox.filter_vmap":
+            dflt = ("call", ("ext", "equinox.if_array"), (C(0),), ())
+            dflt2 = ("call", ("ext", "equinox.if_array"), (), (("axis", C(0)),))
+            kwargs = {k: v for k, v in kwargs.items() if not (k in ("in_axes", "out_axes") and v in (dflt, dflt2))}
         if q == "builtins.zip" and "strict" in kwargs:
             # strict=True only adds an error for sequences of unequal length; the pairs produced are the same
             kwargs = {k: v for k, v in kwargs.items() if k != "strict"}
@@ -826,8 +862,8 @@ def repo_sig(prog: Program, q: str):
         for kwo, d in zip(a.kwonlyargs, a.kw_defaults):
             if d is not None and isinstance(d, ast.Constant):
                 defaults[kwo.arg] = C(d.value)
-        # do not elide defaults for repo callables: explicitness matters for binding rules
-        sig = (tuple(params), {})
+        # a keyword passed with exactly its declared constant default is the same call as leaving it out
+        sig = (tuple(params), defaults)
     _REPO_SIG_CACHE[q] = sig
     return sig
 
@@ -1534,6 +1570,17 @@ class Interp:
                 else:
                     env.set(name, ("call", ("ext", f"list.{e.func.attr}"), (cur, v), ()))
                 return
+        # name.reverse()
+        if isinstance(e, ast.Call) and isinstance(e.func, ast.Attribute) and e.func.attr == "reverse" and \
+                isinstance(e.func.value, ast.Name) and not e.args and not e.keywords:
+            name = e.func.value.id
+            cur = env.get(name)
+            if isinstance(cur, tuple):
+                if cur[0] == "list" and not any(x[0] == "star" for x in cur[1]):
+                    env.set(name, ("list", tuple(reversed(cur[1]))))
+                else:
+                    env.set(name, ("call", ("ext", "builtins.reversed"), (cur,), ()))
+                return
         # name.insert(i, v)
         if isinstance(e, ast.Call) and isinstance(e.func, ast.Attribute) and e.func.attr == "insert" and \
                 isinstance(e.func.value, ast.Name) and len(e.args) == 2 and not e.keywords:
@@ -1813,6 +1860,9 @@ class Interp:
                 val = None
             if isinstance(val, (tuple, list)) and all(isinstance(x, (str, int, float, bool, type(None))) for x in val):
                 return ("tuple" if isinstance(val, tuple) else "list", tuple(C(x) for x in val))
+            if isinstance(val, (str, int, float, bool)) and isinstance(m.assigns[name], (ast.Constant, ast.UnaryOp)):
+                # a named module-level number / string (magic number moved to a constant)
+                return C(val)
             # a module-level alias of a callable:  _f = partial(g, k=v)  /  _f = mod.g  /  _f = g
             node = m.assigns[name]
             key_ = (m.name, name)
@@ -2123,6 +2173,10 @@ class Interp:
         return self.call(f, args, kwargs, ctx, node)
 
     def call(self, f, args, kwargs, ctx, node=None):
+        if isinstance(f, tuple) and f and f[0] == "call" and f[1] == ("ext", "functools.partial") and f[2]:
+            kw = dict(f[3])
+            kw.update(kwargs)
+            return self.call(f[2][0], list(f[2][1:]) + list(args), kw, ctx, node)
         if isinstance(f, Partial):
             kw = dict(f.kwargs)
             kw.update(kwargs)
@@ -2555,7 +2609,7 @@ def assigned_names(stmts) -> list[str]:
                 visit(s.orelse)
                 visit(s.finalbody)
             elif isinstance(s, ast.Expr) and isinstance(s.value, ast.Call) and isinstance(
-                    s.value.func, ast.Attribute) and s.value.func.attr in ("append", "extend", "insert") and isinstance(
+                    s.value.func, ast.Attribute) and s.value.func.attr in ("append", "extend", "insert", "reverse") and isinstance(
                     s.value.func.value, ast.Name):
                 add(s.value.func.value.id)
             elif isinstance(s, ast.Expr) and isinstance(s.value, ast.Call) and isinstance(
